@@ -25,6 +25,9 @@ pub enum Op1 {
     Nested(i64, i64, Vec<Op1>),
     /// the same, but the ops of the inner body read the ENCLOSING loop's state
     NestedO(i64, i64, Vec<Op1>),
+    /// hash-shipped join with a constant side input (a stream defined outside the loop when
+    /// used inside a loop body: cached and replayed every round)
+    JoinSide(JVar, JLocal, Vec<P>),
     /// identity, but the user function panics on the first element whose value is congruent to this modulo 7 (C20)
     PanicAt(i64),
 }
@@ -72,6 +75,7 @@ impl Op1 {
             Op1::AddState => "OAddState".into(),
             Op1::Nested(n, lim, body) => format!("(ONested {} {} {})", z(*n), z(*lim), ops_coq(body)),
             Op1::NestedO(n, lim, body) => format!("(ONestedO {} {} {})", z(*n), z(*lim), ops_coq(body)),
+            Op1::JoinSide(v, lo, side) => format!("(OJoinSide {} {} {})", jv(*v), match lo { JLocal::Hash => "LoHash", JLocal::SortMerge => "LoSortMerge" }, data_coq(side)),
             Op1::PanicAt(_) => "(OMapAdd 0)".into(),
         }
     }
@@ -130,7 +134,28 @@ impl StateGet {
     }
 }
 
-fn apply1(s: DynStream<P>, o: &Op1, state: &StateGet) -> DynStream<P> {
+/// Side inputs of the `JoinSide` ops of an op list, built (outside any loop body) in the
+/// depth-first order in which `apply` meets them.
+type Sides = std::sync::Arc<std::sync::Mutex<std::collections::VecDeque<DynStream<P>>>>;
+fn collect_sides(env: &StreamContext, mode: BatchMode, os: &[Op1], out: &mut std::collections::VecDeque<DynStream<P>>) {
+    for o in os {
+        match o {
+            Op1::JoinSide(_, _, side) => {
+                let data = side.clone();
+                out.push_back(erase(env.stream_par_iter(move |id, n| data.into_iter().skip(id as usize).step_by(n as usize)).batch_mode(mode)));
+            }
+            Op1::Nested(_, _, b) | Op1::NestedO(_, _, b) => collect_sides(env, mode, b, out),
+            _ => {}
+        }
+    }
+}
+fn prebuild_sides(env: &StreamContext, mode: BatchMode, os: &[Op1]) -> Sides {
+    let mut q = std::collections::VecDeque::new();
+    collect_sides(env, mode, os, &mut q);
+    std::sync::Arc::new(std::sync::Mutex::new(q))
+}
+
+fn apply1(sides: &Sides, s: DynStream<P>, o: &Op1, state: &StateGet) -> DynStream<P> {
     match o {
         Op1::MapAdd(c) => { let c = *c; erase(s.map(move |x: P| (x.0, x.1 + c))) }
         Op1::SetKey(m) => { let m = *m; erase(s.map(move |x: P| (x.1.rem_euclid(m), x.1))) }
@@ -152,23 +177,27 @@ fn apply1(s: DynStream<P>, o: &Op1, state: &StateGet) -> DynStream<P> {
         Op1::AddState => { let st = state.clone(); erase(s.map(move |x: P| (x.0, x.1 + st.get()))) }
         Op1::PanicAt(v) => { let v = *v; let tag = RUN_TAG.with(|t| t.get()); erase(s.map(move |x: P| { if x.1.rem_euclid(7) == v { FIRED_TAGS.lock().unwrap().insert(tag); panic!("injected user-function panic"); } x })) }
         Op1::Nested(n, limit, body) => {
-            let (body, limit) = (body.clone(), *limit);
+            let (body, limit, sd) = (body.clone(), *limit, sides.clone());
             let st = erase(s.shuffle()).replay(
                 *n as usize,
                 0i64,
-                move |s, inner| { let get = StateGet::Handle(inner); apply(erase(s), &body, &get) },
+                move |s, inner| { let get = StateGet::Handle(inner); apply(&sd, erase(s), &body, &get) },
                 |d: &mut i64, x: P| *d += x.1,
                 |s: &mut i64, d: i64| *s += d,
                 move |s: &mut i64| *s < limit,
             );
             erase(st.map(|v: i64| (0, v)))
         }
+        Op1::JoinSide(v, lo, _) => {
+            let side = sides.lock().unwrap().pop_front().expect("side input prebuilt");
+            join(s, side, *v, JShip::Hash, *lo)
+        }
         Op1::NestedO(n, limit, body) => {
-            let (body, limit, outer) = (body.clone(), *limit, state.clone());
+            let (body, limit, outer, sd) = (body.clone(), *limit, state.clone(), sides.clone());
             let st = erase(s.shuffle()).replay(
                 *n as usize,
                 0i64,
-                move |s, _inner| apply(erase(s), &body, &outer),
+                move |s, _inner| apply(&sd, erase(s), &body, &outer),
                 |d: &mut i64, x: P| *d += x.1,
                 |s: &mut i64, d: i64| *s += d,
                 move |s: &mut i64| *s < limit,
@@ -177,8 +206,8 @@ fn apply1(s: DynStream<P>, o: &Op1, state: &StateGet) -> DynStream<P> {
         }
     }
 }
-fn apply(mut s: DynStream<P>, os: &[Op1], state: &StateGet) -> DynStream<P> {
-    for o in os { s = apply1(s, o, state); }
+fn apply(sides: &Sides, mut s: DynStream<P>, os: &[Op1], state: &StateGet) -> DynStream<P> {
+    for o in os { s = apply1(sides, s, o, state); }
     s
 }
 
@@ -217,13 +246,13 @@ pub fn build(env: &StreamContext, p: &Pipe, mode: BatchMode) -> DynStream<P> {
                 erase(env.stream_iter(data.into_iter()).batch_mode(mode))
             }
         }
-        Pipe::Op(p, o) => apply1(build(env, p, mode), o, &zero),
+        Pipe::Op(p, o) => { let input = build(env, p, mode); apply1(&prebuild_sides(env, mode, std::slice::from_ref(o)), input, o, &zero) }
         Pipe::Join(l, r, v, sh, lo) => join(build(env, l, mode), build(env, r, mode), *v, *sh, *lo),
         Pipe::Merge(l, r) => erase(build(env, l, mode).merge(build(env, r, mode))),
         Pipe::Split(p, a, b, v) => {
             let mut branches = build(env, p, mode).split(2);
-            let sb = apply(erase(branches.pop().unwrap()), b, &zero);
-            let sa = apply(erase(branches.pop().unwrap()), a, &zero);
+            let sb = apply(&prebuild_sides(env, mode, b), erase(branches.pop().unwrap()), b, &zero);
+            let sa = apply(&prebuild_sides(env, mode, a), erase(branches.pop().unwrap()), a, &zero);
             match v {
                 None => erase(sa.merge(sb)),
                 Some(v) => join(sa, sb, *v, JShip::Hash, JLocal::Hash),
@@ -231,10 +260,12 @@ pub fn build(env: &StreamContext, p: &Pipe, mode: BatchMode) -> DynStream<P> {
         }
         Pipe::Replay(p, n, limit, body) => {
             let (body, limit) = (body.clone(), *limit);
-            let st = erase(build(env, p, mode).shuffle()).replay(
+            let input = build(env, p, mode);
+            let sd = prebuild_sides(env, mode, &body);
+            let st = erase(input.shuffle()).replay(
                 *n as usize,
                 0i64,
-                move |s, state| { let get = StateGet::Handle(state); apply(erase(s), &body, &get) },
+                move |s, state| { let get = StateGet::Handle(state); apply(&sd, erase(s), &body, &get) },
                 |d: &mut i64, x: P| *d += x.1,
                 |s: &mut i64, d: i64| *s += d,
                 move |s: &mut i64| *s < limit,
@@ -243,10 +274,12 @@ pub fn build(env: &StreamContext, p: &Pipe, mode: BatchMode) -> DynStream<P> {
         }
         Pipe::Iterate(p, n, limit, body, take_state) => {
             let (body, limit) = (body.clone(), *limit);
-            let (state, out) = erase(build(env, p, mode).shuffle()).iterate(
+            let input = build(env, p, mode);
+            let sd = prebuild_sides(env, mode, &body);
+            let (state, out) = erase(input.shuffle()).iterate(
                 *n as usize,
                 0i64,
-                move |s, state| { let get = StateGet::Handle(state); erase(apply(erase(s), &body, &get).shuffle()) },
+                move |s, state| { let get = StateGet::Handle(state); erase(apply(&sd, erase(s), &body, &get).shuffle()) },
                 |d: &mut i64, x: P| *d += x.1,
                 |s: &mut i64, d: i64| *s += d,
                 move |s: &mut i64| *s < limit,
@@ -386,7 +419,19 @@ pub fn loop_body(rng: &mut Rng, max: u64, allow_nested: bool) -> Vec<Op1> {
         // one nested loop in four reads the ENCLOSING loop's state in its body
         b.insert(pos, if rng.chance(1, 4) { Op1::NestedO(n, lim, inner) } else { Op1::Nested(n, lim, inner) });
     }
+    // a join with a side input defined outside the loop (cached and replayed every round);
+    // distinct keys on the side, so that the join does not multiply the stream
+    if rng.chance(1, 4) {
+        let pos = rng.below(b.len() as u64 + 1) as usize;
+        b.insert(pos, random_join_side(rng));
+    }
     b
+}
+
+pub fn random_join_side(rng: &mut Rng) -> Op1 {
+    let mut side: Vec<P> = vec![];
+    for k in 0..9 { if rng.chance(1, 2) { side.push((k, rng.range(0, 40))); } }
+    Op1::JoinSide(*rng.pick(&[JVar::Inner, JVar::Left, JVar::Outer, JVar::Outer]), *rng.pick(&[JLocal::Hash, JLocal::SortMerge, JLocal::SortMerge]), side)
 }
 
 fn chain(rng: &mut Rng, mut p: Pipe, max: u64) -> Pipe {
